@@ -139,6 +139,15 @@ def check(rng, override=None):
         W = T - 4
         if max(np.abs(ln[k][:W] - lf[k][:W]).max() for k in ('k', 'p', 'c', 's')) > 1e-7 or max(np.abs(lr[k] - ln[k]).max() for k in ('k', 'p', 'c')) > 1e-9:
             C.push(out, dict(what='nested linear impulse differs from the flat one (or changes with reused Jacobians)', input=inp, signature=dict(op='impulse_linear', calibration=ci)))
+        # a shock that reaches only ONE of the flat problem's targets (m enters res_p only; res_k, listed first, is not reached): the stacked target responses must keep the target order
+        shm = {'m': np.r_[0.0, 0.005, -0.002, np.zeros(T - 3)]}
+        lfm = flat.solve_impulse_linear(ssf, ['k', 'p'], ['res_k', 'res_p'], shm)
+        lnm = nm.solve_impulse_linear(ssn, ['p'], ['res_p'], shm)
+        Gm = flat.solve_jacobian(ssf, ['k', 'p'], ['res_k', 'res_p'], ['m'], T=T) @ shm
+        n += 1
+        if max(np.abs(lnm[k][:W] - lfm[k][:W]).max() for k in ('k', 'p', 'c', 's')) > 1e-7 or max(np.abs(Gm[k][:W] - lfm[k][:W]).max() for k in ('k', 'p')) > 1e-8:
+            C.push(out, dict(what='for a shock that reaches only the second of two targets the flat linear impulse differs from the nested one / from G applied to the shock', input=dict(inp, shocked=['m']),
+                             signature=dict(op='impulse_linear-one-target-reached', calibration=ci)))
         nf = flat.solve_impulse_nonlinear(ssf, ['k', 'p'], ['res_k', 'res_p'], sh, options={'flat': opts})
         nn = nm.solve_impulse_nonlinear(ssn, ['p'], ['res_p'], sh, options={'nested': opts, 'inner_solved': opts})
         n += 1
